@@ -10,6 +10,7 @@ import (
 	"encoding/hex"
 	"fmt"
 	"github.com/golang/snappy"
+	"github.com/influxdata/influxdb/tsdb/index/tsi1"
 	"io"
 	"math"
 	"os"
@@ -89,6 +90,12 @@ func (h *H) Open() error {
 	cfg.WALDir = filepath.Join(h.Dir, "wal")
 	if h.Index != "" {
 		cfg.Index = h.Index
+	}
+	if h.Index == "tsi1c" {
+		// the disk-based index with a tiny log file: every few writes the log is compacted
+		// into an index file, and index files into higher levels
+		cfg.Index = "tsi1"
+		cfg.MaxIndexLogFileSize = 256
 	}
 	cfg.CacheSnapshotWriteColdDuration = toml.Duration(1000 * time.Hour)
 	cfg.CompactFullWriteColdDuration = toml.Duration(1000 * time.Hour)
@@ -645,6 +652,142 @@ func (h *H) TagValues(meas, key string) string {
 	return csv(out)
 }
 
+// predExpr: "<key> eq|ne|in|nin <v1,v2>|-"; "-" is the empty value (tag absent). in/nin are
+// anchored regular expressions over the listed values.
+func predExpr(key, op, vals string) (influxql.Expr, error) {
+	q := influxql.QuoteIdent(key)
+	v := vals
+	if v == "-" {
+		v = ""
+	}
+	var src string
+	switch op {
+	case "eq":
+		src = fmt.Sprintf("%s = '%s'", q, v)
+	case "ne":
+		src = fmt.Sprintf("%s != '%s'", q, v)
+	case "in":
+		src = fmt.Sprintf("%s =~ /^(%s)$/", q, strings.ReplaceAll(v, ",", "|"))
+	case "nin":
+		src = fmt.Sprintf("%s !~ /^(%s)$/", q, strings.ReplaceAll(v, ",", "|"))
+	default:
+		return nil, fmt.Errorf("bad predicate")
+	}
+	return influxql.ParseExpr(src)
+}
+
+// SeriesBy lists the series of a measurement that satisfy a tag predicate
+// (IndexSet.MeasurementSeriesByExprIterator).
+func (h *H) SeriesBy(meas, key, op, vals string) string {
+	expr, err := predExpr(key, op, vals)
+	if err != nil {
+		return "bad-op"
+	}
+	sh := h.Shard()
+	idx, err := sh.Index()
+	if err != nil {
+		return "err:" + err.Error()
+	}
+	sf, err := sh.SeriesFile()
+	if err != nil {
+		return "err:" + err.Error()
+	}
+	is := tsdb.IndexSet{Indexes: []tsdb.Index{idx}, SeriesFile: sf}
+	itr, err := is.MeasurementSeriesByExprIterator([]byte(meas), expr)
+	if err != nil {
+		return "err:" + strings.ReplaceAll(err.Error(), " ", "_")
+	}
+	if itr == nil {
+		return "-"
+	}
+	defer itr.Close()
+	var out []string
+	for {
+		e, err := itr.Next()
+		if err != nil {
+			return "err:" + strings.ReplaceAll(err.Error(), " ", "_")
+		}
+		if e.SeriesID == 0 {
+			break
+		}
+		name, tags := sf.Series(e.SeriesID)
+		if name == nil {
+			out = append(out, fmt.Sprintf("UNKNOWN-SERIES-ID-%d", e.SeriesID))
+			continue
+		}
+		out = append(out, canonSeries(models.MakeKey(name, tags)))
+	}
+	sort.Strings(out)
+	return csv(out)
+}
+
+// MeasurementsIn lists the measurements whose name matches an anchored alternation.
+func (h *H) MeasurementsIn(vals string) string {
+	cond, err := influxql.ParseExpr(fmt.Sprintf("_name =~ /^(%s)$/", strings.ReplaceAll(vals, ",", "|")))
+	if err != nil {
+		return "bad-op"
+	}
+	names, err := h.Store.MeasurementNames(context.Background(), nil, DB, "", cond)
+	if err != nil {
+		return "err:" + strings.ReplaceAll(err.Error(), " ", "_")
+	}
+	var out []string
+	for _, n := range names {
+		out = append(out, string(n))
+	}
+	sort.Strings(out)
+	return csv(out)
+}
+
+// Cardinality: the number of series the shard's index reports.
+func (h *H) Cardinality() string {
+	return fmt.Sprintf("card %d", h.Shard().SeriesN())
+}
+
+// IndexCompact forces the disk-based index to compact (log file into index file, levels).
+func (h *H) IndexCompact() string {
+	idx, err := h.Shard().Index()
+	if err != nil {
+		return "err:" + err.Error()
+	}
+	if t, ok := idx.(*tsi1.Index); ok {
+		t.Compact()
+		t.Wait()
+	}
+	return "ok"
+}
+
+// SeriesFileCompact compacts every partition of the database's series file.
+func (h *H) SeriesFileCompact() string {
+	sf, err := h.Shard().SeriesFile()
+	if err != nil {
+		return "err:" + err.Error()
+	}
+	for _, p := range sf.Partitions() {
+		if err := tsdb.NewSeriesPartitionCompactor().Compact(p); err != nil {
+			return "err:" + strings.ReplaceAll(err.Error(), " ", "_")
+		}
+	}
+	return "ok"
+}
+
+// DropSeries removes the series of a measurement matching a tag predicate (DROP SERIES).
+func (h *H) DropSeries(meas, key, op, vals string) string {
+	var expr influxql.Expr
+	if key != "-" {
+		var err error
+		expr, err = predExpr(key, op, vals)
+		if err != nil {
+			return "bad-op"
+		}
+	}
+	src := []influxql.Source{&influxql.Measurement{Database: DB, RetentionPolicy: RP, Name: meas}}
+	if err := h.Store.DeleteSeries(DB, src, expr); err != nil {
+		return "err:" + strings.ReplaceAll(err.Error(), " ", "_")
+	}
+	return "ok"
+}
+
 func (h *H) DropMeasurement(meas string) string {
 	if err := h.Store.DeleteMeasurement(DB, meas); err != nil {
 		return "err:" + strings.ReplaceAll(err.Error(), " ", "_")
@@ -1102,6 +1245,18 @@ func (h *H) Step(op string) (out string) {
 		return h.DeleteB(f[1], f[2], lo, hi)
 	case "dropm":
 		return h.DropMeasurement(f[1])
+	case "seriesby":
+		return h.SeriesBy(f[1], f[2], f[3], f[4])
+	case "measin":
+		return h.MeasurementsIn(f[1])
+	case "card":
+		return h.Cardinality()
+	case "idxcompact":
+		return h.IndexCompact()
+	case "sfcompact":
+		return h.SeriesFileCompact()
+	case "drops":
+		return h.DropSeries(f[1], f[2], f[3], f[4])
 	case "series":
 		return h.Series()
 	case "meas":
